@@ -191,7 +191,7 @@ def analyse_scenario(item):
             res["cex"].append({"kind": "liveness", "prop": "Termination", "schedule": sch})
     # C12: happens-before bookkeeping over every interleaving (orderings of the micro-op table)
     m, c = es.write_mcsync(wd, "MChb", cfg, txt, progs, hb=True)
-    rc, out = rv.run_tlc(wd, m, c, workers=4, deque=False, timeout=1500, heap="6g")
+    rc, out = rv.run_tlc(wd, m, c, workers=4, deque=False, timeout=900, heap="6g")
     st3 = rv.tlc_stats(out)
     if st3 is None and rc == 124 and rv.tlc_progress(out):
         # the vector-clock product of a three-thread scenario is not exhausted within the time limit: what was explored
